@@ -1,6 +1,6 @@
 (* Executable wrapper for the C03 correspondence. *)
 From Coq Require Import String List NArith Bool.
-From V Require Import lib.Sexp model.Wire.
+From V Require Import lib.Sexp model.Wire gen.Gen_Read.
 Import ListNotations.
 Local Open Scope N_scope.
 
@@ -63,12 +63,15 @@ Definition s_result (r : result) : sexp :=
   end.
 
 (* case: (maxsize reqs replies) *)
+(* release_conn() as the source has it *)
+Definition rc : bool := match Gen_Read.release_closes_unread with Some b => b | None => false end.
+
 Definition run (c : sexp) : sexp :=
   match c with
   | SL [SN m; reqs; replies] =>
       match as_list_of as_req reqs, as_list_of as_reply replies with
       | Some reqs, Some replies =>
-          SL (map s_result (run_history 3 (N.to_nat m) (init (N.to_nat m) replies) 0 reqs))
+          SL (map s_result (run_history rc 3 (N.to_nat m) (init (N.to_nat m) replies) 0 reqs))
       | _, _ => s_bad_case
       end
   | _ => s_bad_case
